@@ -12,6 +12,7 @@ def f32(lo: float, hi: float, **kw):
         hi32 = np.nextafter(hi32, np.float32(-np.inf))
     kw.setdefault("allow_nan", False)
     kw.setdefault("allow_infinity", False)
+    kw.setdefault("allow_subnormal", False)     # XLA on CPU flushes subnormals to zero, numpy does not: outside the comparable domain
     return st.floats(min_value=float(lo32), max_value=float(hi32), width=32, **kw)
 
 
